@@ -80,5 +80,23 @@ struct AtomPayload {
 
 }  // namespace dsh
 
+// A table of ints kept in the runtime's cell array (see dsched::cellSet): use it like std::vector<int> for
+// bookkeeping that several managed threads read and write.
+namespace dsh {
+struct CellRef {
+  int idx;
+  operator int() const { return dsched::cellGet(idx); }
+  CellRef& operator=(int v) { dsched::cellSet(idx, v); return *this; }
+  CellRef& operator=(const CellRef& o) { dsched::cellSet(idx, dsched::cellGet(o.idx)); return *this; }
+  int operator++(int) { int v = dsched::cellGet(idx); dsched::cellSet(idx, v + 1); return v; }
+};
+struct CellVec {
+  int base = 0, n = 0;
+  CellVec() {}
+  CellVec(int b, int len, int init = 0) : base(b), n(len) { for (int i = 0; i < len; ++i) dsched::cellSet(b + i, init); }
+  CellRef operator[](int i) const { return CellRef{base + i}; }
+};
+}  // namespace dsh
+
 #define DS_CALL(...) dsched::note("call " __VA_ARGS__)
 #define DS_RET(...) dsched::note("ret " __VA_ARGS__)
